@@ -116,6 +116,9 @@ func (g *opGen) sels(typ string, depth int, sc *scope, root bool) []*Sel {
 			out = append(out, g.fragmentOn(td.Members[0], depth, sc))
 		}
 	}
+	if g.k["covariant"] {
+		out = append(out, g.covariantSels(td, depth, sc, root)...)
+	}
 	if len(out) == 0 {
 		out = append(out, g.field(td, &FieldDef{Name: "__typename", Type: NonNull(Named("String"))}, depth, sc))
 	}
@@ -203,7 +206,7 @@ func (g *opGen) field(parent *TypeDef, fd *FieldDef, depth int, sc *scope) *Sel 
 	g.budget--
 	s := &Sel{Kind: SField, Name: fd.Name}
 	s.Args = g.args(parent.Name, fd)
-	sig := fd.Name + argsText(s.Args) + ":" + fd.Type.SDL()
+	sig := g.sigOf(fd, s.Args)
 	key := fd.Name
 	if g.k["aliases"] && g.r.Chance(1, 6) {
 		key = fmt.Sprintf("al%d", g.r.Pick(4))
